@@ -1,5 +1,19 @@
 use crate::utils::{Arr2D, Arr2DError};
 
+/// Upper bound on the number of iterations before `power_method` gives up
+pub const MAX_ITERATIONS: usize = 100_000;
+
+// The component to divide by so that the largest component of the result is 1:
+// the maximum when it is positive, otherwise (no positive component) the minimum
+fn scaling_component(vector: &Arr2D<f64>) -> f64 {
+    let max = vector.max().unwrap(); // Matrix won't be empty here
+    if max > 0.0 {
+        max
+    } else {
+        vector.min().unwrap()
+    }
+}
+
 pub fn power_method<M>(matrix: M, es: f64) -> Result<(f64, Arr2D<f64>), Arr2DError>
 where
     M: TryInto<Arr2D<f64>, Error = Arr2DError>,
@@ -8,17 +22,16 @@ where
     if matrix.height != matrix.width || matrix.height == 0 || matrix.width == 0 {
         return Err(Arr2DError::NonSquareMatrix);
     }
-    let initial_eigenvector = Arr2D::from(&[[1.0], [1.0], [1.0]]);
+    let initial_eigenvector = Arr2D::full(1.0, matrix.height, 1);
     let mut eigenvector = &matrix * initial_eigenvector;
-    // Arr2D.max() only returns None if the matrix is empty
-    let mut eigenvalue = eigenvector.max().unwrap(); // Matrix won't be empty here
+    let mut eigenvalue = scaling_component(&eigenvector);
     eigenvector = eigenvector / eigenvalue; // Normalised Eigenvector
+    let mut iterations = 0;
     loop {
         eigenvector = &matrix * eigenvector;
-        let normalisation_value = eigenvector.max().unwrap(); // Matrix also won't be empty here
+        let normalisation_value = scaling_component(&eigenvector);
         let normalised_eigenvector = &eigenvector / normalisation_value;
 
-        // Rayleigh quotient for faster convergence
         let numerator = &normalised_eigenvector.transpose() * (&matrix * &normalised_eigenvector); // x_k^T * (A * x_k)
         let denominator = &normalised_eigenvector.transpose() * &normalised_eigenvector; // x_k^T * x_k
         let next_eigenvalue = numerator.as_scalar_unchecked() / denominator.as_scalar_unchecked(); // convert to f64
@@ -29,6 +42,11 @@ where
         eigenvector = normalised_eigenvector;
         if ea < es {
             break;
+        }
+        iterations += 1;
+        if iterations >= MAX_ITERATIONS {
+            // e.g. a zero or nilpotent matrix, or dominant eigenvalues of equal modulus
+            return Err(Arr2DError::NoConvergence);
         }
     }
     Ok((eigenvalue, eigenvector))
